@@ -89,14 +89,14 @@ theorem rm_eq {el : Ell} (h : Valid el) (lat : ℝ) :
   have h1e : 1 - Real.sqrt (2 * el.f - el.f * el.f) * Real.sqrt (2 * el.f - el.f * el.f) = (1 - el.f) ^ 2 := by
     rw [e_sq h]; ring
   unfold rm
-  simp only [e_eq h, psin, e1, base_eq h, plt, hlt, decide_false, ppow, h1e]
+  simp only [e_eq h, psin, e1, base_eq h, plt, hlt, decide_false, elpow, h1e]
   simp only [Bool.false_eq_true, if_false]
   exact fdiv_ok hne
 
 
 /-! ### surface distance -/
 
-theorem ppow_two (x : ℝ) : ppow x 2 = x ^ 2 := Real.rpow_two x
+theorem ppow_two (x : ℝ) : elpow x 2 = x ^ 2 := Real.rpow_two x
 
 /-- The part of `Earth.distance` after the six squares have been formed (same statements as the model). -/
 def andoyer (a fe sin2g cos2g cos2f sin2f sin2lam cos2lam : ℝ) : PyRes (ℝ × ℝ) :=
